@@ -7,8 +7,9 @@ From LR Require Import lib.Base lib.DecLib model.DecKV.
 Local Open Scope Z_scope.
 
 Section WithQuote.
-  (* [fx] = true: the repaired parser, which tests the 255-byte limit again after unquoting
-     (proposed_fixes/C13-unquote-expansion); the code on this tree is [fx] = false *)
+  (* [fx] = true: the parser of the code, which applies the 255-byte limit to the string it stores (after
+     TrimSpaces/Unquote), just before byte(len(v)) is written; [fx] = false: the earlier parser, which applied it to
+     the raw piece at the top of the loop (so that a quoted literal could grow past 255 bytes in Unquote) *)
   Variable fx : bool.
   Variable unquote : bytes -> option bytes.
   Variable quote : bytes -> bytes.
@@ -18,7 +19,7 @@ Section WithQuote.
     match res with
     | [] => Ok acc
     | v :: tl =>
-        if 255 <? blen v then Err else
+        if negb fx && (255 <? blen v) then Err else
         v1 <- trim_spaces v ;;
         if (blen v1 =? 0) && Nat.even i then Err else
         v2 <- (if 0 <? blen v1 then
@@ -47,8 +48,20 @@ Section WithQuote.
     | o => o
     end.
 
-  (* Fields.AsKVString *)
-  Definition has_sep (v : bytes) : bool := existsb (fun c => byte_eqb c c_comma || byte_eqb c c_eq) v.
+  (* Fields.AsKVString.  kvNeedsQuote(s, name, edge): an empty name; a string holding ',' '=' or a double quote; a
+     blank at an end; a leading back quote; with [edge] the opening brace at the beginning of a name / the closing
+     brace at the end of a value.  s[0] and s[len(s)-1] are read only when len(s) > 0. *)
+  Definition has_sep (v : bytes) : bool := existsb (fun c => byte_eqb c c_comma || byte_eqb c c_eq || byte_eqb c c_dquote) v.
+  Definition kv_needs_quote (s : bytes) (name edge : bool) : bool :=
+    match s with
+    | [] => name
+    | c0 :: _ =>
+        let cl := last s c0 in
+        if has_sep s then true
+        else if byte_eqb c0 c_space || byte_eqb cl c_space || byte_eqb c0 c_bquote then true
+        else if edge then (name && byte_eqb c0 c_lbrace) || (negb name && byte_eqb cl c_rbrace)
+        else false
+    end.
 
   Fixpoint as_kv_go (fuel : nat) (f : bytes) (idx : Z) (even : bool) (sb : bytes) : outcome bytes :=
     match fuel with
@@ -58,8 +71,9 @@ Section WithQuote.
           n <- at_z f idx ;;
           piece <- slice f (idx + 1) (idx + 1 + n) ;;
           let sb' :=
-            if even then sb ++ (if 0 <? idx then [c_comma] else []) ++ piece ++ [c_eq]
-            else sb ++ (if has_sep piece then quote piece else piece) in
+            if even then sb ++ (if 0 <? idx then [c_comma] else []) ++
+                         (if kv_needs_quote piece true (idx =? 0) then quote piece else piece) ++ [c_eq]
+            else sb ++ (if kv_needs_quote piece false (idx + n + 1 =? blen f) then quote piece else piece) in
           as_kv_go fu f (idx + n + 1) (negb even) sb'
         else Ok sb
     end.
